@@ -96,6 +96,15 @@ fn from_val(v: &Value) -> Result<RunScenario, String> {
     serde_json::from_value(v.clone()).map_err(|e| format!("bad scenario: {}", e))
 }
 
+/// One scenario in `one_in`: the invocations of the world run under wrong and jumping wall clocks (own generator,
+/// so that the scenarios of existing seeds stay what they were).
+pub fn clockify(spec: &mut WorldSpec, seed: u64, tag: &str, idx: usize, one_in: u32) {
+    let mut crng = Rng::new(scenario_seed(seed, tag, idx));
+    if crng.chance(1, one_in) {
+        spec.clock_plan = crate::world::gen_clock_plan(&mut crng);
+    }
+}
+
 fn gen_knobs(rng: &mut Rng, script: &mut RunScript) {
     script.rand_seed = Some(rng.next_u64() % 1_000_000);
     script.workers = Some(*rng.pick(&[1u32, 2, 4, 16]));
@@ -352,7 +361,9 @@ impl Property for C04 {
         }
     }
     fn generate(&self, seed: u64, idx: usize, tier: Tier) -> Value {
-        let mut v = to_val(&gen_c04(seed, idx, tier));
+        let mut sc = gen_c04(seed, idx, tier);
+        clockify(&mut sc.spec, seed, "C04-clock", idx, 6);
+        let mut v = to_val(&sc);
         // one run in four has a `log tail` listener attached: ordering must not depend on who is listening
         let mut rng = Rng::new(scenario_seed(seed, "C04l", idx));
         v["with_listener"] = json!(rng.chance(1, 4));
@@ -473,7 +484,7 @@ fn gen_c16(seed: u64, idx: usize, tier: Tier) -> RunScenario {
             files.push((format!("{}/monorail/argmap/base.json", t.path), body.clone()));
         }
     }
-    let spec = WorldSpec { targets, cmd_files, files, sequences: vec![], max_retained_runs: 2, gitignore: vec![], git: true, lock_host: None, default_ports: 0, omit_max_retained: false, sha256_repo: false };
+    let spec = WorldSpec { targets, cmd_files, files, sequences: vec![], max_retained_runs: 2, gitignore: vec![], git: true, lock_host: None, default_ports: 0, omit_max_retained: false, sha256_repo: false, clock_plan: vec![] };
     let opts = RunOpts { commands: cmds.iter().map(|s| s.to_string()).collect(), ..Default::default() };
     let mut script = RunScript::simple(opts);
     // one scenario in four: a few members of the wide layer exit the moment they have started, while monorail is
@@ -1237,7 +1248,9 @@ impl Property for C06 {
         }
     }
     fn generate(&self, seed: u64, idx: usize, tier: Tier) -> Value {
-        to_val(&gen_c06(seed, idx, tier))
+        let mut sc = gen_c06(seed, idx, tier);
+        clockify(&mut sc.spec, seed, "C06-clock", idx, 6);
+        to_val(&sc)
     }
     fn execute(&self, v: &Value) -> Outcome {
         let mut o = exec_with(v, check_c06);
@@ -1429,7 +1442,7 @@ fn gen_c11(seed: u64, idx: usize, _tier: Tier) -> (RunScenario, C11Extra) {
     if rng.chance(2, 3) {
         rng.shuffle(&mut targets);
     }
-    let spec = WorldSpec { targets, cmd_files, files, sequences: vec![], max_retained_runs: 2, gitignore: vec![], git: true, lock_host: None, default_ports: 0, omit_max_retained: false, sha256_repo: false };
+    let spec = WorldSpec { targets, cmd_files, files, sequences: vec![], max_retained_runs: 2, gitignore: vec![], git: true, lock_host: None, default_ports: 0, omit_max_retained: false, sha256_repo: false, clock_plan: vec![] };
     let mut opts = RunOpts::default();
     let k = rng.range(1, cmds.len());
     opts.commands = cmds[..k].to_vec();
